@@ -17,7 +17,8 @@ import warnings
 from simkit.core import dec, enc, repo_func
 from simkit.refmodels.extract import cost_of, extract, extract_hex
 from simkit.refmodels.known_hashes import MIN_COST
-from simkit.refmodels.policy import PolicyModel, SchemeFacts
+from simkit.refmodels.policy import PolicyModel
+from simkit.refmodels.policy import merge as merge_policy, SchemeFacts
 from simkit.seams import SimFS, SimRandom
 
 NAME = "credstore"
@@ -686,8 +687,7 @@ class _PolicyRun:
 
     def op_policy_update(self, op):
         d = op["delta"]
-        new = dict(self.policy)
-        new.update(d)
+        new = merge_policy(self.policy, d)
         try:
             self.model = PolicyModel(new, facts_for(new["schemes"]))
             for c in (None, "admin", "staff"):
